@@ -69,6 +69,10 @@ def check_has_all(cx: Cx, q: str, field: str):
                 cx.violation('R-GUARD', fn.qualname, 'all-of-semantics', f"{fn.name} returns {v!r} over {getattr(d, 'elt', None)!r}: it must be "
                              f"true exactly when every listed type is a key of the store", where=cx.where(fn, p.last.line))
                 break
+            if not loops and v == Const(True) and va is not None and (implies(p.cond, f_not(ATruthy(va))) is None or
+                                                                    implies(p.cond, mk_cmp(App('len', (va,)), '==', Num(0))) is None):
+                seen.add('true-empty')      # `if not types: return True`: all-of over an empty template
+                continue
             if not loops or strip_versions(loops[0].data.get('iter')) != va:
                 ok = False
                 cx.violation('R-GUARD', fn.qualname, 'tests-every-listed-type', f"{fn.name} does not iterate its template {va!r}", where=cx.where(fn))
